@@ -383,6 +383,8 @@ def propose(rng: random.Random, pool: list[dict], families: list[str] | None = N
             return op, [x["ref"]], {"axis": axis, "include_initial": rng.random() < 0.3}
         if op in ("argmax", "argmin"):
             return op, [x["ref"]], {"axis": rng.choice([None, ax()]), "keepdims": rng.random() < 0.4}
+        if op in ("all", "any") and rng.random() < 0.4:
+            return op, [x["ref"]], {"axis": None, "keepdims": False}     # the full reduction has its own shortcuts
         choice = rng.random()
         if choice < 0.3 or r == 0:
             axis = None
@@ -642,6 +644,20 @@ def generate(rng: random.Random, n_inputs=(1, 3), n_steps=(1, 6), dtypes=None, f
         results.append(res)
         pool.append(_meta(["st", len(results) - 1], res, val))
     return prog if prog["steps"] else None
+
+
+def struct_broadcast_preset(rng):
+    """Inputs for struct-typed results whose fields come from operands of different run-time shapes: a mask /
+    nullable condition that broadcasts against the data only at run time (size variable "U" is always 1, but is
+    *declared* symbolic / unknown).  Returns (preset inputs, families, step range)."""
+    r = rng.choice([1, 1, 2, 3])
+    D = [rng.choice(["A", "B", 2, 3]) for _ in range(r)]
+    Dm = [("U" if rng.random() < 0.6 else d) for d in D][rng.randrange(0, r):]
+    core = rng.choice(["int32", "float64", "int8", "utf8", "bool", "uint8"])
+    if rng.random() < 0.5:
+        return [{"dtype": core, "dims": D}, {"dtype": "bool", "dims": Dm}], ["nullable", "nullable", "index"], (1, 3)
+    return ([{"dtype": "nbool", "dims": Dm}, {"dtype": core, "dims": D}, {"dtype": core, "dims": D}],
+            ["where", "where", "index"], (1, 3))
 
 
 def describe(prog) -> str:
